@@ -314,7 +314,7 @@ CONFIG = {
         "the hash function is a parameter H of the models (SHA-256 in the harness); the refinement theorem only needs that H yields well-formed digests (no collision-freeness): the body digest itself is checked by the consumer (C05); only sha256 digests are generated",
         "mime.ParseMediaType is a parameter parse_mt : str -> option str (None = error); refinement assumes it is the identity on the media types the caller uses and on application/octet-stream -- media types mime would rewrite (upper case, parameters) are outside the theorems and the generator (audit F9/F11: generateBlobDescriptor ignores mime's error, so a Content-Type like 'text/plain; a' yields 'text/plain' in the code and octet-stream in the model; not generated)",
         "JSON decoding of a manifest's subject is ONE parameter subject_of of the bytes (None = undecodable) standing for the four decoders of push/delete; manifests that decode for Delete but not for the typed decoders of Push are not generated; the history-level refinement theorem covers decodable manifests whose subject, if any, is pushed to a registry with the Referrers API (OCI-Subject), and Predecessors over that API (single page; pagination: composition with C15)",
-        "referrers TAG schema (registry without the Referrers API; sequential -- concurrency is C14): referrersFromIndex, updateReferrersIndex, applyReferrerChanges (at most one change), generateIndex (gen_index renders the exact JSON bytes), decodeJSON (reads exactly desc.Size bytes and verifies the digest: decode_json_verifies, configured by the translator's decodeJSON_calls), the Predecessors fallback on ErrUnsupported, SkipReferrersGC (parameter skip_gc) and the deletion of the old index are executable Gallina, compared on every request/response and judged by the oracle (generated in every profile, incl. single-field corruptions of the GET/HEAD of the referrers tag). JSON DEcoding of an index is a parameter index_of; the theorems ask index_of (gen_index l) = Some l only for the two indexes involved (the one read, the one written) -- for ALL lists it would be unsatisfiable because gen_index does not escape quotes -- and subject_of (gen_index l) = Some None; satisfiable: Example C13_push_subject_satisfiable discharges every hypothesis by computation (the OCaml driver parses the generated format with a regex; the vm_compute sample uses an independent Python rendering). Theorems: function level (updateReferrersIndex then read), every SEQUENCE of referrer changes of one subject (C13_tag_schema_changes: refines applyReferrerChanges step by step under per-step side conditions changes_ok: change effective, index decodes, fits the limit, no digest collision old/new index unless SkipReferrersGC) and OPERATION level (Push/Delete of a manifest with subject, then Predecessors; any registry state satisfying minv, unique tag keys, no digest collision between the manifest and the indexes) -- they are NOT part of the history-level refinement theorem (wf_hist still confines subjects to registries with the API); artifactType/annotations of index entries are not modelled (not generated)",
+        "referrers TAG schema (registry without the Referrers API; sequential -- concurrency is C14): referrersFromIndex, updateReferrersIndex, applyReferrerChanges (at most one change), generateIndex (gen_index renders the exact JSON bytes), decodeJSON (reads exactly desc.Size bytes and verifies the digest: decode_json_verifies, configured by the translator's decodeJSON_calls), the Predecessors fallback on ErrUnsupported, SkipReferrersGC (parameter skip_gc), the deletion of the old index and deleteWithIndexing's 'finish the deletion when only the clean-up of the dangling index failed' branch (update_referrers_index_x; found missing in the model in the second extension round: the generator reaches it ~once per 2000 histories, a regression case is in the corpus) are executable Gallina, compared on every request/response and judged by the oracle (generated in every profile, incl. single-field corruptions of the GET/HEAD of the referrers tag). JSON DEcoding of an index is a parameter index_of; the theorems ask index_of (gen_index l) = Some l only for the two indexes involved (the one read, the one written) -- for ALL lists it would be unsatisfiable because gen_index does not escape quotes -- and subject_of (gen_index l) = Some None; satisfiable: Example C13_push_subject_satisfiable discharges every hypothesis by computation (the OCaml driver parses the generated format with a regex; the vm_compute sample uses an independent Python rendering). Theorems: function level (updateReferrersIndex then read), every SEQUENCE of referrer changes of one subject (C13_tag_schema_changes: refines applyReferrerChanges step by step under per-step side conditions changes_ok: change effective, index decodes, fits the limit, no digest collision old/new index unless SkipReferrersGC) OPERATION level (Push/Delete of a manifest with subject, then Predecessors; any registry state satisfying minv, unique tag keys, no digest collision between the manifest and the indexes) and HISTORY level for one subject (C13_tag_schema_history: every sequence of Push/Delete of manifests with subject sj and Predecessors(sj) run by run_ops: Push/Delete succeed, each Predecessors lists the index of that moment, the referrers tag ends at what applyReferrerChanges yields; ts_hist_ok checks the local side conditions of each operation in the state it meets, like wf_hist; satisfiable: C13_tag_schema_history_satisfiable) -- histories that MIX subjects or interleave other operations with subject-carrying manifests on a registry without the API are not covered, and these theorems are NOT part of the refinement theorem against the store specification (wf_hist still confines subjects to registries with the API); artifactType/annotations of index entries are not modelled (not generated)",
         "MaxMetadataBytes is a parameter limit (default regenerated from utils.go): limitSize on pushed/deleted indexable manifests and the bound on the body hashed by generateDescriptor are modelled; the refinement theorem assumes manifests no larger than the limit (larger ones are refused, after fix ed36700 never truncated); the byte size of a generated referrers index is modelled (len (gen_index l) against the limit) but near-limit histories are generated without subjects",
         "Repository.ParseReference is the C20 model repo_parse (proved in C20); the correspondence uses references without '/' so that net/url registry validation is not involved; fully qualified references are C20's subject",
         "op_ok / wf_hist: descriptors carry a VALID digest and a media type and are accurate for what the store holds. The client does not validate target.Digest itself: Fetch(desc{Digest: '../x'}) emits a non-spec URL -- a caller inconsistency outside the property's quantifier, not generated (audit F5)",
@@ -331,8 +331,8 @@ CONFIG = {
         "C13_requests_allowed needs H to yield well-formed digests (forall c, valid_digest (H c) = true): the DELETE of the old referrers index is addressed by the digest the client computed",
         "C13_refines_store_partial excludes Resolve/FetchReference of a TAG through a HEAD request against a registry that sends no Docker-Content-Digest (known finding head-tag-no-digest-header; tight: C13_resolve_tag_needs_header)",
     ],
-    "level_text": "Coq theorems: (1) client o registry refines a content store with tags for every history of Push/Fetch/Exists/Delete/Resolve/FetchReference/Tag/PushReference/Mount/blob Resolve/FetchReference, every capability profile, ManifestMediaTypes option and referrers state (induction over the history with a registry invariant); (2) every request emitted against ANY server is in the request grammar `allowed`; (3) against ANY server a successful call implies a response consistent with the request (digest header, Content-Length, Content-Type, status, Location), plus the single-field-corruption form for Fetch; (4) readSeekCloser refines an in-memory reader for every Read/Seek script and every body behaviour (chunking, data with EOF; per body) and emits Range bytes=off-(size-1) exactly when the offset changes inside the blob; (5) Predecessors over the Referrers API returns exactly the stored manifests with that subject (inside the refinement theorem, for any registry state, and -- composed with C15 -- for any legal pagination); (6) the PUT of a two-step upload follows the Location (authority, path, query + digest) with the documented :443 repair only; (7) the digest-header hypothesis of (1) is tight in every registry state and all 32 profiles are covered (in-Coq computation); (8) referrers tag schema against a registry without the API, in any registry state: Push of a manifest with subject succeeds and Predecessors then lists old referrers ++ [pushed]; Delete removes the referrer from the index, then the manifest; every sequence of index updates of one subject leaves the referrers tag at what applyReferrerChanges yields step by step; the index a Referrers/Predecessors call accepts is the body whose digest and length the response announced (single-field corruption theorems for the referrers-tag GET); (9) the URL of every request of the grammar is exactly scheme://host/v2/<repository>/<kind>/<reference> under RFC 3986 splitting (composition with C20_url_exact). Tied to the code by translator-regenerated constants/tables, a differential run of the extracted models against remote.Repository over a fake registry whose complete request/response log is replayed through the extracted Registry.v, and an independent oracle",
-    "level_note": "after the audit: three defects fixed in the code (truncated manifest over MaxMetadataBytes, FetchReference ignoring the GET digest header on the HEAD path, Seek accepting a 206 of the wrong length) + blob-upload digest check; two known findings (head-tag-no-digest-header, seek-206-digest-unverified). The last sentence of the property is proved as 'success implies a consistent response' for every operation incl. Seek; URL construction is modelled and compared per request (C13_request_url_exact); Warning pass-through is oracle-only. The history-level refinement theorem is _partial: excludes resolving a tag by HEAD without Docker-Content-Digest (known finding, refuted witness proved), manifests with subjects on registries without the Referrers API (there: operation-level theorems C13_push_subject_then_predecessors / C13_delete_subject_then_predecessors over the modelled tag schema, not lifted to histories; concurrency C14), pagination (C15), inaccurate caller descriptors; both known findings have _refuted witnesses (C13_refines_store_refuted, C13_corruption_rejected_seek_digest_refuted); net/http, mime, JSON are parameters / not modelled; net/url only for plain URLs",
+    "level_text": "Coq theorems: (1) client o registry refines a content store with tags for every history of Push/Fetch/Exists/Delete/Resolve/FetchReference/Tag/PushReference/Mount/blob Resolve/FetchReference, every capability profile, ManifestMediaTypes option and referrers state (induction over the history with a registry invariant); (2) every request emitted against ANY server is in the request grammar `allowed`; (3) against ANY server a successful call implies a response consistent with the request (digest header, Content-Length, Content-Type, status, Location), plus the single-field-corruption form for Fetch; (4) readSeekCloser refines an in-memory reader for every Read/Seek script and every body behaviour (chunking, data with EOF; per body) and emits Range bytes=off-(size-1) exactly when the offset changes inside the blob; (5) Predecessors over the Referrers API returns exactly the stored manifests with that subject (inside the refinement theorem, for any registry state, and -- composed with C15 -- for any legal pagination); (6) the PUT of a two-step upload follows the Location (authority, path, query + digest) with the documented :443 repair only; (7) the digest-header hypothesis of (1) is tight in every registry state and all 32 profiles are covered (in-Coq computation); (8) referrers tag schema against a registry without the API, in any registry state: Push of a manifest with subject succeeds and Predecessors then lists old referrers ++ [pushed]; Delete removes the referrer from the index, then the manifest; every sequence of index updates of one subject, and every history of Push/Delete operations of manifests with one subject (run_ops), leaves the referrers tag at what applyReferrerChanges yields step by step and Predecessors lists it; the index a Referrers/Predecessors call accepts is the body whose digest and length the response announced (single-field corruption theorems for the referrers-tag GET); (9) the URL of every request of the grammar is exactly scheme://host/v2/<repository>/<kind>/<reference> under RFC 3986 splitting (composition with C20_url_exact). Tied to the code by translator-regenerated constants/tables, a differential run of the extracted models against remote.Repository over a fake registry whose complete request/response log is replayed through the extracted Registry.v, and an independent oracle",
+    "level_note": "after the audit: three defects fixed in the code (truncated manifest over MaxMetadataBytes, FetchReference ignoring the GET digest header on the HEAD path, Seek accepting a 206 of the wrong length) + blob-upload digest check; two known findings (head-tag-no-digest-header, seek-206-digest-unverified). The last sentence of the property is proved as 'success implies a consistent response' for every operation incl. Seek; URL construction is modelled and compared per request (C13_request_url_exact); Warning pass-through is oracle-only. The history-level refinement theorem is _partial: excludes resolving a tag by HEAD without Docker-Content-Digest (known finding, refuted witness proved), manifests with subjects on registries without the Referrers API (there: C13_tag_schema_history for histories of Push/Delete of manifests with ONE subject, built on the operation-level theorems C13_push_subject_then_predecessors / C13_delete_subject_then_predecessors; mixed subjects / interleaving with other operations and the tie to spec_run are not proved; concurrency C14), pagination (C15), inaccurate caller descriptors; both known findings have _refuted witnesses (C13_refines_store_refuted, C13_corruption_rejected_seek_digest_refuted); net/http, mime, JSON are parameters / not modelled; net/url only for plain URLs",
     "technique": "machine-checked proof in Coq (refinement by induction over histories with a registry invariant; any-server lemmas for request grammar and response consistency; seek state-machine refinement) + translator-regenerated tables + model/implementation correspondence on full request/response traces",
     "explanation": "theorems over all histories/profiles/servers about Model/Registry.v + Model/RemoteClient.v; the extracted models are run on the same generated histories (rotating profiles, PlainHTTP, ManifestMediaTypes, referrers state, one corrupted response field, Read/Seek scripts) as registry/remote against harness/fakereg13 and compared on results and complete request/response logs; independent oracle = Go ground-truth store, distribution-spec endpoint table, must-fail table for contradicting corruptions, bytes.Reader for seeks",
 }
